@@ -8,6 +8,11 @@
 //! overwriting; Unsubscribe = stop and forget the session registered for the topic) exactly when
 //! the schedule says the manager runs.
 //!
+//! A dropping thread parks three times: `before_drop` (next step = the `fetch_sub`),
+//! `drop_after_decrement` (next step = the decision on the value `fetch_sub` returned; no shared
+//! access in the code as it is) and, if it decided to leave, `drop_before_unsubscribe` (next step =
+//! `send_message(Unsubscribe)`) — the model's `PDrop` / `PDec` / `PSend`.
+//!
 //! Payload: `<flags> <label>*` — flags: one char per thread, `k` = the thread calls `stream()` and
 //! keeps the handle, `d` = it calls `stream()` and then drops the handle; label: thread index or
 //! `M` (manager handles the next message).  A label whose step is not enabled is skipped; after
@@ -533,9 +538,121 @@ fn run_real(payload: &str) -> String {
     line
 }
 
+/// Probe manager for the free-running races: applies the manager's session bookkeeping at once.
+struct AutoProbe;
+
+struct AutoState {
+    sess: std::collections::HashMap<p2panda_core::Topic, mpsc::Receiver<Vec<u8>>>,
+    leaked: Vec<mpsc::Receiver<Vec<u8>>>,
+    keep_alive: Vec<broadcast::Sender<Vec<u8>>>,
+    unsubs: std::sync::Arc<std::sync::atomic::AtomicUsize>,
+}
+
+impl Actor for AutoProbe {
+    type Msg = ToGossipManager;
+    type State = AutoState;
+    type Arguments = std::sync::Arc<std::sync::atomic::AtomicUsize>;
+
+    async fn pre_start(&self, _myself: ActorRef<Self::Msg>, args: Self::Arguments) -> Result<Self::State, ActorProcessingErr> {
+        Ok(AutoState { sess: Default::default(), leaked: Vec::new(), keep_alive: Vec::new(), unsubs: args })
+    }
+
+    async fn handle(&self, _myself: ActorRef<Self::Msg>, message: Self::Msg, state: &mut Self::State) -> Result<(), ActorProcessingErr> {
+        match message {
+            ToGossipManager::Subscribe(topic, _nodes, reply) => {
+                let (to_gossip_tx, to_gossip_rx) = mpsc::channel(128);
+                let (from_gossip_tx, _) = broadcast::channel(128);
+                if let Some(old) = state.sess.insert(topic, to_gossip_rx) {
+                    state.leaked.push(old);
+                }
+                state.keep_alive.push(from_gossip_tx.clone());
+                let _ = reply.send((to_gossip_tx, from_gossip_tx));
+            }
+            ToGossipManager::Unsubscribe(topic) => {
+                drop(state.sess.remove(&topic));
+                state.unsubs.fetch_add(1, std::sync::atomic::Ordering::SeqCst);
+            }
+            _ => {}
+        }
+        Ok(())
+    }
+}
+
+/// Free-running race (no schedule control): `race <reps> <threads>`.  Per repetition (own topic):
+/// one handle is created and dropped (the overlay is left, the entry in `senders` is dead), then
+/// `<threads>` threads call the real `Gossip::stream` at the same time and keep their handles.
+/// A repetition is bad when a returned handle is not backed by a session (publishing fails) or its
+/// counter is 0.  Output: `race bad=<k>/<reps>`.
+fn run_race(payload: &str) -> String {
+    use std::sync::atomic::{AtomicUsize, Ordering};
+    let sh = shared();
+    let mut tok = payload.split_whitespace();
+    let reps: usize = tok.next().and_then(|x| x.parse().ok()).unwrap_or(100);
+    let nthreads: usize = tok.next().and_then(|x| x.parse().ok()).unwrap_or(2);
+    let unsubs = std::sync::Arc::new(AtomicUsize::new(0));
+    let (actor_ref, _join) = sh.rt.block_on(Actor::spawn(None, AutoProbe, unsubs.clone())).expect("probe actor");
+    let my_id = SigningKey::from_bytes(&[7u8; 32]).verifying_key();
+    let gossip = Gossip::verif_new(actor_ref.clone(), my_id, sh.book.clone(), GossipConfig::default());
+    let mut bad = 0usize;
+    for rep in 0..reps {
+        let mut bytes = [0u8; 32];
+        bytes[..8].copy_from_slice(&(rep as u64).to_le_bytes());
+        bytes[31] = 29;
+        let topic: p2panda_core::Topic = bytes.into();
+        match sh.rt.block_on(gossip.stream(topic)) {
+            Ok(h) => drop(h),
+            Err(_) => return "race SETUP".into(),
+        }
+        let t0 = std::time::Instant::now();
+        while unsubs.load(Ordering::SeqCst) < rep + 1 {
+            if t0.elapsed() > STEP_TIMEOUT {
+                return "race STUCK".into();
+            }
+            std::thread::yield_now();
+        }
+        let barrier = std::sync::Arc::new(std::sync::Barrier::new(nthreads));
+        let joins: Vec<_> = (0..nthreads)
+            .map(|_| {
+                let gossip = gossip.clone();
+                let barrier = barrier.clone();
+                std::thread::spawn(move || {
+                    let rt = tokio::runtime::Builder::new_current_thread().enable_all().build().expect("runtime");
+                    barrier.wait();
+                    rt.block_on(gossip.stream(topic)).ok()
+                })
+            })
+            .collect();
+        let handles: Vec<Option<GossipHandle>> = joins.into_iter().map(|j| j.join().ok().flatten()).collect();
+        let mut rep_bad = false;
+        for h in &handles {
+            match h {
+                None => rep_bad = true,
+                Some(h) => {
+                    if h.verif_guard_counter() == 0 || sh.rt.block_on(h.publish(vec![1u8])).is_err() {
+                        rep_bad = true;
+                    }
+                }
+            }
+        }
+        if rep_bad {
+            bad += 1;
+        }
+        // keep the handles: dropping them would add the (known) late-Unsubscribe overlaps
+        std::mem::forget(handles);
+    }
+    drop(gossip);
+    actor_ref.stop(None);
+    format!("race bad={bad}/{reps}")
+}
+
 pub fn main() {
-    h_common::run_cases(|payload| match payload.strip_prefix("real ") {
-        Some(rest) => run_real(rest),
-        None => run_case(payload),
+    h_common::run_cases(|payload| {
+        if let Some(rest) = payload.strip_prefix("real ") {
+            run_real(rest)
+        } else if let Some(rest) = payload.strip_prefix("race ") {
+            run_race(rest)
+        } else {
+            run_case(payload)
+        }
     });
 }
